@@ -466,6 +466,9 @@ fn load_like(like: &AnyG, bytes: &[u8]) -> Result<AnyG, String> {
 
 struct World {
     hs: HashMap<usize, HS>,
+    /// handles on which a call has panicked; in soak mode they stay alive and keep executing calls
+    soaked: std::collections::HashSet<usize>,
+    soak: bool,
 }
 
 impl World {
@@ -475,6 +478,7 @@ impl World {
             [] => String::new(),
             ["reset"] => {
                 self.hs.clear();
+                self.soaked.clear();
                 "ok".into()
             }
             ["hex", rest @ ..] => exec_hex(rest),
@@ -579,6 +583,35 @@ impl World {
                 };
                 self.hs.insert(b, right);
                 out
+            }
+            ["same", _, _] => "ok".into(),
+            ["script", a, t] => {
+                let (Some(a), Some(text)) = (parse_handle(a), parse_text_tok(t)) else { return "bad-op".into() };
+                match self.hs.get_mut(&a) {
+                    None => "bad-op".into(),
+                    Some(HS::Dead) => "dead".into(),
+                    Some(HS::Live(g)) => {
+                        let r = guard(|| {
+                            let mut sc = sodg::Script::from_str(&text);
+                            with_g!(g, x => sc.deploy_to(x)).map_err(|e| e.to_string())
+                        });
+                        match r {
+                            Some(Ok(k)) => format!("ok {k} ; {}", keys_of(g)),
+                            Some(Err(msg)) => {
+                                // "Failure at the command no.{pos}: ..."
+                                let pos = msg.split("command no.").nth(1).and_then(|t| t.split(':').next()).and_then(|t| t.trim().parse::<usize>().ok());
+                                match pos {
+                                    Some(k) => format!("err {k} ; {}", keys_of(g)),
+                                    None => format!("err ? ; {}", keys_of(g)),
+                                }
+                            }
+                            None => {
+                                self.hs.insert(a, HS::Dead);
+                                "panic".into()
+                            }
+                        }
+                    }
+                }
             }
             ["save", a] => {
                 let Some(a) = parse_handle(a) else { return "bad-op".into() };
@@ -690,6 +723,7 @@ impl World {
             }
             [cmd, h, rest @ ..] => {
                 let Some(a) = parse_handle(h) else { return "bad-op".into() };
+                let soaked = self.soaked.contains(&a);
                 match self.hs.get_mut(&a) {
                     None => "bad-op".into(),
                     Some(HS::Dead) => "dead".into(),
@@ -698,11 +732,16 @@ impl World {
                             core_call(g, cmd, rest).map(|s| format!("{s} ; {}", post(g, &op_args(cmd, rest))))
                         }));
                         match r {
-                            Ok(Some(s)) => s,
+                            Ok(Some(s)) => if soaked { format!("soak {s}") } else { s },
                             Ok(None) => "bad-op".into(),
                             Err(_) => {
-                                self.hs.insert(a, HS::Dead);
-                                "panic".into()
+                                if self.soak {
+                                    self.soaked.insert(a);
+                                    if soaked { "soak panic".into() } else { "panic".into() }
+                                } else {
+                                    self.hs.insert(a, HS::Dead);
+                                    "panic".into()
+                                }
                             }
                         }
                     }
@@ -722,7 +761,7 @@ fn main() {
             let stdin = std::io::stdin();
             let stdout = std::io::stdout();
             let mut out = std::io::BufWriter::new(stdout.lock());
-            let mut w = World { hs: HashMap::new() };
+            let mut w = World { hs: HashMap::new(), soaked: std::collections::HashSet::new(), soak: std::env::var("HARNESS_SOAK").is_ok() };
             let flush = std::env::var("HARNESS_FLUSH").is_ok();
             for line in stdin.lock().lines() {
                 let line = line.unwrap();
